@@ -213,6 +213,17 @@ def lookup_name(I, st, env, name, frame):
             return ModuleRef(imp[1])
         return ModuleRef('%s.%s' % (imp[1], imp[2]))
     if (mod, name) in m.consts:
+        node = m.consts[(mod, name)]
+        if isinstance(node, (ast.BinOp, ast.UnaryOp, ast.Attribute)):
+            # arithmetic over symbolic constants such as 2 * math.pi: evaluate abstractly
+            from .absint import Frame
+            from .state import State
+            try:
+                r = I.eval(State(), {}, node, Frame(None, mod, ast.parse('def _c(): pass').body[0], 0))
+            except Exception:  # noqa
+                r = []
+            if len(r) == 1 and isinstance(r[0][1], Num):
+                return r[0][1]
         # non-foldable module constant (compiled regex, ...)
         return Opaque('const:%s.%s' % (mod, name))
     if name in ('True', 'False', 'None'):
